@@ -1240,6 +1240,21 @@ def single_defs(block: tuple) -> dict:
             elif x[0] == "for" and len(x) == 5:
                 for t in ([x[1]] if x[1][0] != "tuple" else list(x[1][1])):
                     banned.add(t)
+            # objects with identity: mutated through a method, a store or a heap primitive
+            if x[0] == "c" and isinstance(x[1], tuple) and len(x[1]) == 3 and x[1][0] == "a" and x[1][2] in MUTATOR_METHODS:
+                banned.add(x[1][1])
+            if x[0] == "c" and isinstance(x[1], tuple) and len(x[1]) == 3 and x[1][0] == "a" and x[1][1] == ("g", "heapq") and x[2]:
+                banned.add(x[2][0])
+            if x[0] in ("set", "del") and len(x) >= 2 and isinstance(x[1], tuple) and x[1] and x[1][0] in ("s", "a") and len(x[1]) == 3:
+                r = x[1][1]
+                while isinstance(r, tuple) and len(r) == 3 and r[0] in ("s", "a"):
+                    r = r[1]
+                banned.add(r)
+            if x[0] == "aug" and len(x) == 4 and isinstance(x[2], tuple) and x[2] and x[2][0] in ("s", "a"):
+                r = x[2][1]
+                while isinstance(r, tuple) and len(r) == 3 and r[0] in ("s", "a"):
+                    r = r[1]
+                banned.add(r)
             for y in x:
                 rec(y)
     rec(block)
